@@ -353,6 +353,12 @@ def cases_extra(tier, rng, escalate):
             for chunks in _chunkings(stream, R, rng, thorough):
                 yield dict(input=sc2.make_simple_case(4, [limit], [b"jsonraw"], chunks),
                            tags=["kind4", "jsonraw", "terminated"], nontrivial=len(chunks) > 1)
+            # a small document followed IN THE SAME READ by whitespace taking document + padding beyond the limit: the
+            # padding belongs to no frame, the document must not be rejected for its size
+            for pad in (limit - len(doc), limit - len(doc) + 1, limit + 3):
+                padding = bytes(rng.choice(b" \n\t\r") for _ in range(max(1, pad)))
+                yield dict(input=sc2.make_simple_case(4, [limit], [b"jsonraw"], [doc.rstrip() + padding]),
+                           tags=["kind4", "jsonraw", "terminated", "whitespace-padding", "near-boundary"], nontrivial=True)
         # ---- file based (length-prefixed test format): announced length never arrives
         for kind in (5, 6):
             for n in range(1, limit + R + 4):
@@ -448,6 +454,12 @@ def oracle_extra(inp):
         if all(len(d) + 2 <= limit for d in JSON_SMALL if stream.startswith(d)) and any(stream.startswith(d) for d in JSON_SMALL) \
                 and limit_errors and len(stream) + 1 < limit:
             return f"small JSON document rejected with a limit error (limit={limit})"
+        if len(chunks) == 1 and limit_errors:
+            for d in JSON_SMALL:
+                core = d.rstrip()
+                if core[:1] in b'[{"' and len(core) <= limit and stream.startswith(core) and not stream[len(core):].strip(b" \t\r\n"):
+                    return (f"JSON document of {len(core)} bytes followed in the same read by {len(stream) - len(core)} bytes of "
+                            f"whitespace rejected with a limit error (limit={limit})")
     else:
         if stream[:1] == bytes([250]) and len(stream) > limit + R + 1 and not limit_errors and not crashed:
             return f"{len(stream)} bytes of an incomplete record held with limit={limit}, read<={R}: no limit error"
